@@ -358,6 +358,46 @@ Section M.
     do p <- of_cal (Calendar.parse sy (fst pl) (snd pl));
     if (p <? day_of st)%Z then of_cal (Calendar.parse (sy + 1) (fst pl) (snd pl)) else IOk p.
 
+  (* the concentration and the crop of season k as reset_initial_conditions leaves them (computed once per season, with the
+     flag "the reset does not raise"); season 0 is reset only when the run starts before the first planting date ([k0] = -1).
+     [s]: day number of the start date, [p]: planting step of the season *)
+  Definition season_of (u : CropU) (s k0 : Z) (wsel : list (Inputs.WRow F)) (co2 : Inputs.CO2 F) (conc0 : F)
+             (o0 : CropInit.CropOut (F:=F)) (k p : Z) : F * CropInit.CropOut (F:=F) * bool :=
+    if (k =? 0)%Z && (k0 =? 0)%Z then (conc0, o0, true)
+    else
+      match Inputs.co2_season co2 (year_of_day (s + p)) with
+      | Inputs.Err _ => (conc0, o0, false)              (* co2_data_processed.loc[year]: KeyError *)
+      | Inputs.Ok c =>
+        let o1 := with_fco2 o0 (fco2 c (Inputs.co2_ref co2) (u_bsted u) (u_bface u) (u_fsink u) (u_WP u)) in
+        if (u_CalendarType u =? 2)%Z then
+          match gdd_from u (s + p) wsel with
+          | Some gdd => match reseason_gdd u o1 gdd with Some o2 => (c, o2, true) | None => (c, o1, false) end
+          | None => (c, o1, false)
+          end
+        else (c, o1, true)
+      end.
+
+  Definition seasons_of (u : CropU) (s k0 : Z) (l : list (Z * Z)) (wsel : list (Inputs.WRow F)) (co2 : Inputs.CO2 F) (conc0 : F)
+             (o0 : CropInit.CropOut (F:=F)) : list (F * CropInit.CropOut (F:=F) * bool) :=
+    map (fun kp => season_of u s k0 wsel co2 conc0 o0 (fst kp) (snd kp)) (combine (Calendar.zrange 0 (Z.of_nat (length l))) (map fst l)).
+
+  (* before the first season (k < 0): the concentration and the crop as initialisation leaves them *)
+  Definition look3 (seasons : list (F * CropInit.CropOut (F:=F) * bool)) (conc0 : F) (o0 : CropInit.CropOut (F:=F)) (k : Z)
+    : F * CropInit.CropOut (F:=F) * bool :=
+    if (k <? 0)%Z then (conc0, o0, true) else nth (Z.to_nat k) seasons (conc0, o0, true).
+
+  Definition par_of (cfg : Config) (s e : Z) (soil : DSoil F) (irr : DIrr F) (seasons : list (F * CropInit.CropOut (F:=F) * bool))
+             (conc0 : F) (o0 : CropInit.CropOut (F:=F)) : DPar F :=
+    let u := cf_crop cfg in
+    {| p_soil := soil; p_irr := irr; p_fallow_irr := fallow_irr s e;
+       p_field := field_of 0 (cf_field cfg); p_fallow_field := field_of 1 (cf_fallow_field cfg);
+       p_crop := fun k => dcrop_of u (snd (fst (look3 seasons conc0 o0 k))) k; p_fallow_crop := dcrop_of u o0 (-1);
+       p_water_table := if gw_present (cf_gw cfg) then 1%Z else 0%Z; p_co2c := fun k => fst (fst (look3 seasons conc0 o0 k));
+       p_co2r := Inputs.co2_ref (cf_co2 cfg); p_evap_steps := 20%Z; p_sim_off := cf_off_season cfg |}.
+
+  Definition crops_of (u : CropU) (seasons : list (F * CropInit.CropOut (F:=F) * bool)) (conc0 : F) (o0 : CropInit.CropOut (F:=F))
+    : Z -> CropFull F := fun k => cropfull_of u (snd (fst (look3 seasons conc0 o0 k))).
+
   Definition initialise (cfg : Config) : ires Init :=
     let u := cf_crop cfg in
     let st := cf_start cfg in let en := cf_end cfg in
@@ -406,38 +446,14 @@ Section M.
     let conc0 := match co2r with Inputs.Ok c => Inputs.co2_current c | Inputs.Err _ => cref end in
     do o0 <- of_crop (CropInit.crop_init (crop_in u second) gdd0 conc0 cref);
     do co2 <- of_in co2r;
-    (* the concentration and the crop of season k as reset_initial_conditions leaves them (computed once per season); season 0
-       is reset only when the run starts before the first planting date *)
-    let season_of (k : Z) (p : Z) : F * CropInit.CropOut (F:=F) * bool :=
-      if (k =? 0)%Z && (k0 =? 0)%Z then (conc0, o0, true)
-      else
-        match Inputs.co2_season co2 (year_of_day (s + p)) with
-        | Inputs.Err _ => (conc0, o0, false)              (* co2_data_processed.loc[year]: KeyError *)
-        | Inputs.Ok c =>
-          let o1 := with_fco2 o0 (fco2 c cref (u_bsted u) (u_bface u) (u_fsink u) (u_WP u)) in
-          if (u_CalendarType u =? 2)%Z then
-            match gdd_from u (s + p) wsel with
-            | Some gdd => match reseason_gdd u o1 gdd with Some o2 => (c, o2, true) | None => (c, o1, false) end
-            | None => (c, o1, false)
-            end
-          else (c, o1, true)
-        end in
-    let seasons := map (fun kp => season_of (fst kp) (snd kp)) (combine (Calendar.zrange 0 (Z.of_nat (length l))) (map fst l)) in
-    let look3 (k : Z) : F * CropInit.CropOut (F:=F) * bool :=
-      if (k <? 0)%Z then (conc0, o0, true) else nth (Z.to_nat k) seasons (conc0, o0, true) in
-    let look (k : Z) : F * CropInit.CropOut (F:=F) := fst (look3 k) in
-    let par :=
-      {| p_soil := soil; p_irr := irr; p_fallow_irr := fallow_irr s e;
-         p_field := field_of 0 (cf_field cfg); p_fallow_field := field_of 1 (cf_fallow_field cfg);
-         p_crop := fun k => dcrop_of u (snd (look k)) k; p_fallow_crop := dcrop_of u o0 (-1);
-         p_water_table := if gw_present gw then 1%Z else 0%Z; p_co2c := fun k => fst (look k); p_co2r := cref;
-         p_evap_steps := 20%Z; p_sim_off := cf_off_season cfg |} in
-    let crops (k : Z) : CropFull F := cropfull_of u (snd (look k)) in
+    let seasons := seasons_of u s k0 l wsel co2 conc0 o0 in
+    let par := par_of cfg s e soil irr seasons conc0 o0 in
+    let crops := crops_of u seasons conc0 o0 in
     (* read_model_initial_conditions: the initial water content, then the state object *)
     do th0 <- of_opt EIwc (SoilBuild.initial_wc (w_type iw) (w_method iw) rows zsoil (w_depth_layer iw) (w_value iw));
     do s0 <- of_opt EState (InitState.init_state par k0 (if gw_present gw then hd_error zgw else None) (fc_reset_of iw) th0);
     IOk {| i_par := par; i_crops := crops; i_clock := clock; i_weather := weather_of (gw_present gw) wsel zgw; i_state := s0;
-           i_reset_ok := fun k => snd (look3 k) |}.
+           i_reset_ok := fun k => snd (look3 seasons conc0 o0 k) |}.
 
   (* ================================================================================================================= *)
   (* the whole simulation from the user's configuration: AquaCropModel(...).run_model(till_termination=True)            *)
